@@ -23,14 +23,19 @@ func init() { registry.Register("C14", Ops) }
 // ---------- taint universe ----------
 
 var (
-	tUnreg    = Taint{v1.UnregisteredTaintKey, string(corev1.TaintEffectNoExecute)}
-	tClaim    = Taint{"example.com/dedicated", "NoSchedule"}
-	tStartA   = Taint{"example.com/startup-a", "NoSchedule"}
-	tStartB   = Taint{"example.com/startup-b", "NoExecute"}
-	tDecoy    = Taint{"example.com/startup-a", "NoExecute"}          // same key as a startup taint, other effect: does not match
-	tNearEph  = Taint{"node.kubernetes.io/unreachable", "NoExecute"} // not in KnownEphemeralTaints (only :NoSchedule is)
-	tReadyCtl = Taint{"readiness.k8s.io/network", "NoSchedule"}      // known by key prefix
-	tOther    = Taint{"example.com/other", "NoSchedule"}
+	tUnreg = Taint{v1.UnregisteredTaintKey, string(corev1.TaintEffectNoExecute)}
+	// the same taint as kubelets / controllers write it in the wild: --register-with-taints=karpenter.sh/unregistered=true:NoExecute,
+	// and NoExecute taints get a timeAdded stamp
+	tUnregVal   = Taint{v1.UnregisteredTaintKey, string(corev1.TaintEffectNoExecute), "true"}
+	tUnregStamp = Taint{v1.UnregisteredTaintKey, string(corev1.TaintEffectNoExecute), "", "2"}
+	tUnregBoth  = Taint{v1.UnregisteredTaintKey, string(corev1.TaintEffectNoExecute), "true", "2"}
+	tClaim      = Taint{"example.com/dedicated", "NoSchedule"}
+	tStartA     = Taint{"example.com/startup-a", "NoSchedule"}
+	tStartB     = Taint{"example.com/startup-b", "NoExecute"}
+	tDecoy      = Taint{"example.com/startup-a", "NoExecute"}          // same key as a startup taint, other effect: does not match
+	tNearEph    = Taint{"node.kubernetes.io/unreachable", "NoExecute"} // not in KnownEphemeralTaints (only :NoSchedule is)
+	tReadyCtl   = Taint{"readiness.k8s.io/network", "NoSchedule"}      // known by key prefix
+	tOther      = Taint{"example.com/other", "NoSchedule"}
 )
 
 // ephemeral taints straight from the code's table (the Lean spec has its own, documented, list)
@@ -40,12 +45,39 @@ func ephTaints() []Taint {
 		if t.Key == v1.UnregisteredTaintKey {
 			continue
 		}
-		out = append(out, Taint{t.Key, string(t.Effect)})
+		out = append(out, Taint{t.Key, string(t.Effect), t.Value})
 	}
 	return append(out, tReadyCtl)
 }
 
 func pick[T any](r *rand.Rand, xs []T) T { return xs[r.IntN(len(xs))] }
+
+var taintValues = []string{"true", "pending", "x"}
+
+// vary gives a taint the payload it may carry on a real Node: mostly as is, else another value and / or a timeAdded stamp
+// (identity — key and effect — is untouched).
+func vary(r *rand.Rand, t Taint) Taint {
+	switch x := r.IntN(10); {
+	case x < 6:
+	case x < 8:
+		t[2] = pick(r, taintValues)
+	case x < 9:
+		t[3] = fmt.Sprint(r.IntN(4))
+	default:
+		t[2], t[3] = pick(r, taintValues), fmt.Sprint(r.IntN(4))
+	}
+	return t
+}
+
+// unregVariant: how the unregistered taint shows up on a fresh Node
+func unregVariant(r *rand.Rand) Taint {
+	return pick(r, []Taint{tUnreg, tUnreg, tUnregVal, tUnregStamp, tUnregBoth})
+}
+
+// readyVariant: the Ready condition of a fresh Node: False, True, Unknown, or not posted yet
+func readyVariant(r *rand.Rand) string {
+	return pick(r, []string{"F", "F", "F", "T", "T", "T", "T", "U", "U", "N"})
+}
 
 // ---------- c14.lifecycle: random histories ----------
 
@@ -79,6 +111,14 @@ func genClaim(r *rand.Rand) ClaimIn {
 	}
 	if r.IntN(2) == 0 {
 		c.Taints = []Taint{tClaim}
+		if r.IntN(3) == 0 {
+			c.Taints[0][2] = "gpu"
+		}
+	}
+	for i := range c.Startup {
+		if r.IntN(4) == 0 {
+			c.Startup[i][2] = "pending"
+		}
 	}
 	c.Res = r.IntN(3)
 	c.Pool = r.IntN(2) == 0
@@ -89,35 +129,51 @@ func genClaim(r *rand.Rand) ClaimIn {
 func genNodeStep(r *rand.Rand, c ClaimIn) Step {
 	s := Step{K: "node", Taints: []Taint{}}
 	if r.IntN(10) < 8 {
-		s.Taints = append(s.Taints, tUnreg)
+		s.Taints = append(s.Taints, unregVariant(r))
 	}
 	eph := ephTaints()
 	for i := 0; i < 2; i++ {
 		if r.IntN(10) < 4 {
-			s.Taints = appendUniq(s.Taints, pick(r, eph))
+			s.Taints = appendUniq(s.Taints, vary(r, pick(r, eph)))
 		}
 	}
 	for _, t := range c.Startup {
 		if r.IntN(10) < 3 {
-			s.Taints = appendUniq(s.Taints, t)
+			s.Taints = appendUniq(s.Taints, vary(r, t))
 		}
 	}
 	for _, t := range []Taint{tDecoy, tNearEph, tOther, tClaim} {
 		if r.IntN(10) < 1 {
-			s.Taints = appendUniq(s.Taints, t)
+			s.Taints = appendUniq(s.Taints, vary(r, t))
 		}
 	}
 	r.Shuffle(len(s.Taints), func(i, j int) { s.Taints[i], s.Taints[j] = s.Taints[j], s.Taints[i] })
-	s.Ready = r.IntN(10) < 4
+	s.Rs = readyVariant(r)
 	s.Res = r.IntN(10) < 4
 	s.Dns = r.IntN(10) < 1
 	s.Reg = r.IntN(10) < 1
 	return s
 }
 
+// genStray: a Node of the cluster that is not this NodeClaim's — it has no provider id (a node that just joined and
+// waits for the cloud controller manager, or one not backed by a cloud instance) or another instance's id. It looks
+// like a Karpenter node would (the taints, readiness and resources a fresh node has), so that adopting it by mistake
+// would go all the way.
+func genStray(r *rand.Rand, c ClaimIn) Step {
+	s := genNodeStep(r, c)
+	s.K = "stray"
+	s.Dns, s.Reg = false, false
+	s.Pid = pick(r, []string{"", "", "x"})
+	if r.IntN(2) == 0 {
+		s.Rs, s.Res = "T", true
+	}
+	return s
+}
+
+// appendUniq: a Node carries at most one taint per (key, effect)
 func appendUniq(ts []Taint, t Taint) []Taint {
 	for _, x := range ts {
-		if x == t {
+		if x.same(t) {
 			return ts
 		}
 	}
@@ -167,6 +223,10 @@ func genGuided(r *rand.Rand, t core.Tier) any {
 	launched, node := false, false
 	var present []Taint // taints probably on the node
 	var steps []Step
+	if r.IntN(4) == 0 {
+		steps = append(steps, genStray(r, c)) // the cluster has other Nodes before this NodeClaim is launched
+		n++
+	}
 	now := 0
 	userDeleteAt := -1
 	if r.IntN(12) == 0 {
@@ -229,18 +289,22 @@ func genGuided(r *rand.Rand, t core.Tier) any {
 			case x < 74:
 				steps = append(steps, Step{K: "res"})
 			case x < 80:
-				tt := pick(r, append([]Taint{tUnreg, tDecoy, tNearEph, tOther, tStartA, tStartB}, ephTaints()...))
+				tt := vary(r, pick(r, append([]Taint{tUnreg, tDecoy, tNearEph, tOther, tStartA, tStartB}, ephTaints()...)))
 				present = appendUniq(present, tt)
 				steps = append(steps, Step{K: "addt", T: &tt})
 			case x < 83:
-				steps = append(steps, Step{K: "unready"})
+				steps = append(steps, Step{K: pick(r, []string{"unready", "unkready", "noready"})})
 			case x < 86:
 				steps = append(steps, Step{K: "unres"})
 			case x < 89:
 				steps = append(steps, Step{K: "gone"})
 				node = false
 			case x < 91:
-				steps = append(steps, genNodeStep(r, c)) // a second node with the same provider id
+				if r.IntN(2) == 0 {
+					steps = append(steps, genNodeStep(r, c)) // a second node with the same provider id
+				} else {
+					steps = append(steps, genStray(r, c)) // another Node joins the cluster
+				}
 			default:
 				secs := 1 + r.IntN(20)
 				now += secs
@@ -273,11 +337,17 @@ func genChaotic(r *rand.Rand, t core.Tier) any {
 	pFault := []float64{0, 0.15, 0.35, 0.6}[r.IntN(4)]
 	taintPool := append([]Taint{tUnreg, tClaim, tStartA, tStartB, tDecoy, tNearEph, tOther}, ephTaints()...)
 	var steps []Step
+	if r.IntN(4) == 0 {
+		steps = append(steps, genStray(r, c))
+		n++
+	}
 	now := 0
 	nodes := 0
 	for len(steps) < n {
 		x := r.IntN(100)
 		switch {
+		case x < 2:
+			steps = append(steps, genStray(r, c))
 		case x < 45:
 			steps = append(steps, genRec(r, pFault))
 			now++ // roughly: a reconcile that patches sleeps one second
@@ -289,7 +359,7 @@ func genChaotic(r *rand.Rand, t core.Tier) any {
 				steps = append(steps, Step{K: "ready"})
 			}
 		case x < 62:
-			steps = append(steps, Step{K: pick(r, []string{"ready", "ready", "unready"})})
+			steps = append(steps, Step{K: pick(r, []string{"ready", "ready", "ready", "unready", "unkready", "noready"})})
 		case x < 68:
 			steps = append(steps, Step{K: pick(r, []string{"res", "res", "unres"})})
 		case x < 82:
@@ -297,6 +367,7 @@ func genChaotic(r *rand.Rand, t core.Tier) any {
 			k := "rmt"
 			if r.IntN(4) == 0 {
 				k = "addt"
+				tt = vary(r, tt)
 			}
 			steps = append(steps, Step{K: k, T: &tt})
 		case x < 84:
@@ -365,10 +436,52 @@ func histLabels(raw json.RawMessage, implV any) []string {
 	set[fmt.Sprintf("len<=%d", ((len(in.Steps)/10)+1)*10)] = true
 	set[fmt.Sprintf("startup=%d", len(in.Claim.Startup))] = true
 	set[fmt.Sprintf("res=%d", in.Claim.Res)] = true
-	for _, s := range in.Steps {
+	payload := func(t Taint) string {
+		switch {
+		case t[2] != "" && t[3] != "":
+			return "value+timeAdded"
+		case t[2] != "":
+			return "value"
+		case t[3] != "":
+			return "timeAdded"
+		}
+		return "bare"
+	}
+	for _, t := range append(append([]Taint{}, in.Claim.Startup...), in.Claim.Taints...) {
+		if t[2] != "" {
+			set["claim-taint-with-value"] = true
+		}
+	}
+	unregAt := make([]string, len(in.Steps)) // the form of the unregistered taint the latest Node joined with
+	lastUnreg := "absent"
+	for i, s := range in.Steps {
 		set["step:"+s.K] = true
 		if s.Lag > 0 {
 			set["lagged-view"] = true
+		}
+		if s.K == "node" {
+			set["node-joins:ready="+s.readyStatus()] = true
+			unreg := "absent"
+			for _, t := range s.Taints {
+				if t.same(tUnreg) {
+					unreg = payload(t)
+				} else {
+					set["node-joins:taint:"+payload(t)] = true
+				}
+			}
+			set["node-joins:unregistered="+unreg] = true
+			lastUnreg = unreg
+		}
+		unregAt[i] = lastUnreg
+		if s.K == "addt" && s.T != nil {
+			set["addt:"+payload(*s.T)] = true
+		}
+		if s.K == "stray" {
+			if s.Pid == "" {
+				set["stray-node:no-provider-id"] = true
+			} else {
+				set["stray-node:other-provider-id"] = true
+			}
 		}
 		for site, cls := range s.F {
 			set["fault:"+site+":"+cls] = true
@@ -376,7 +489,12 @@ func histLabels(raw json.RawMessage, implV any) []string {
 	}
 	if o := decodeOut(implV); o != nil {
 		okCreates := 0
-		for _, s := range o.Steps {
+		prevR := ""
+		for i, s := range o.Steps {
+			if s.Claim.R == "T" && prevR != "T" && i < len(unregAt) {
+				set["registered:node-joined-with-unregistered="+unregAt[i]] = true
+			}
+			prevR = s.Claim.R
 			for _, c := range s.Calls {
 				set["call:"+c] = true
 			}
@@ -404,6 +522,21 @@ func histLabels(raw json.RawMessage, implV any) []string {
 			}
 			if len(s.Nodes) > 1 {
 				set["duplicate-node"] = true
+			}
+			if len(s.Nodes) == 1 && s.Rec {
+				// what the Ready gate saw when it was the one that blocked, and the payload the removed / kept taints carried
+				rd := s.Nodes[0].Ready
+				if rd == "" {
+					rd = "N"
+				}
+				if s.Claim.Ir == "NodeNotReady" {
+					set["init-blocked:ready="+rd] = true
+				}
+				if strings.HasPrefix(s.Claim.Ir, "StartupTaintsExist") || strings.HasPrefix(s.Claim.Ir, "KnownEphemeralTaintsExist") {
+					if strings.Count(s.Claim.Ir, "|") == 3 {
+						set["init-blocked:taint-with-value"] = true
+					}
+				}
 			}
 		}
 		set[fmt.Sprintf("instances=%d", okCreates)] = true
@@ -435,6 +568,29 @@ func histSignature(_ json.RawMessage, implV any) string {
 	}
 	if ok > 1 {
 		return "double-create"
+	}
+	// a condition that went true on a reconcile handed a copy in which it was not, against what the Node looked like
+	prev := ClaimObs{}
+	for _, s := range o.Steps {
+		if s.Claim.Exists && s.Claim.R == "T" && prev.R != "T" && s.View.R != "T" {
+			if len(s.Nodes) != 1 {
+				return "registered-without-single-node"
+			}
+			for _, t := range s.Nodes[0].Taints {
+				if t.same(tUnreg) {
+					return "registered-with-unregistered-taint"
+				}
+			}
+		}
+		if s.Claim.Exists && s.Claim.I == "T" && prev.I != "T" && s.View.I != "T" {
+			if len(s.Nodes) != 1 {
+				return "initialized-without-single-node"
+			}
+			if s.Nodes[0].Ready != "T" {
+				return "initialized-node-not-ready"
+			}
+		}
+		prev = s.Claim
 	}
 	return "lifecycle"
 }
@@ -516,12 +672,26 @@ func permutations(xs []string) [][]string {
 	return out
 }
 
-func scriptSteps(order []string, nodeBeforeLaunch bool) []Step {
+// The script number also picks how the fresh Node looks: which form of the unregistered taint it carries (bare, with a
+// value, with a timeAdded stamp, both), whether its kubelet taint carries payload, and what its Ready condition says
+// before the "ready" event (False, Unknown, not posted yet).
+var (
+	scriptUnreg = []Taint{tUnreg, tUnregVal, tUnregStamp, tUnregBoth}
+	scriptReady = []string{"F", "U", "N"}
+)
+
+func scriptSteps(order []string, nodeBeforeLaunch bool, variant int) []Step {
 	notReady := Taint{corev1.TaintNodeNotReady, string(corev1.TaintEffectNoSchedule)}
-	node := Step{K: "node", Taints: []Taint{tUnreg, notReady}}
+	onNode := notReady
+	if variant%2 == 1 {
+		onNode[3] = "1"
+	}
+	node := Step{K: "node", Taints: []Taint{scriptUnreg[variant%len(scriptUnreg)], onNode}, Rs: scriptReady[variant%len(scriptReady)]}
 	var steps []Step
 	if nodeBeforeLaunch {
 		steps = append(steps, node) // no instance yet: nothing appears
+		// ... but the cluster has a Node without provider id that looks just like the one to come
+		steps = append(steps, Step{K: "stray", Taints: []Taint{tUnreg}, Rs: "T", Res: true})
 	}
 	steps = append(steps, Step{K: "rec"}, Step{K: "rec"}, node, Step{K: "rec"})
 	for _, ev := range order {
@@ -551,7 +721,7 @@ func enumFaults(t core.Tier) []any {
 	var out []any
 	bases := [][]Step{}
 	for oi, order := range orders {
-		bases = append(bases, scriptSteps(order, oi%2 == 1))
+		bases = append(bases, scriptSteps(order, oi%2 == 1, oi))
 	}
 	// one more script: the node shows up complete (no unregistered / kubelet taint, Ready, resources reported), so
 	// that registration and initialization fall into the same reconcile
@@ -589,7 +759,7 @@ func enumFaults(t core.Tier) []any {
 	}
 	if t == core.Thorough {
 		// fault pairs on the first two reconciles (launch) and on the registration reconcile and its retry
-		base := scriptSteps(orders[0], false)
+		base := scriptSteps(orders[0], false, 0)
 		for _, k1 := range kinds {
 			for _, k2 := range kinds {
 				for _, at := range []int{0, 3} {
@@ -606,6 +776,64 @@ func enumFaults(t core.Tier) []any {
 					steps = append(steps, Step{K: "rec"})
 					steps = append(steps, base[at:]...)
 					out = append(out, In{Claim: claim, Steps: steps})
+				}
+			}
+		}
+	}
+	return out
+}
+
+// ---------- c14.gates: every way a fresh Node can look x the gates of Registered / Initialized (exhaustive) ----------
+
+// enumGates: launch; a Node appears in one of the enumerated shapes; two reconciles (registration, initialization);
+// then whatever still blocks is cleared one event at a time with a reconcile after each. No faults, current copies.
+func enumGates(t core.Tier) []any {
+	notReadyNX := Taint{corev1.TaintNodeNotReady, string(corev1.TaintEffectNoExecute)}
+	cloud := Taint{"node.cloudprovider.kubernetes.io/uninitialized", "NoSchedule", "true"}
+	unregs := []*Taint{nil, &tUnreg, &tUnregVal, &tUnregStamp, &tUnregBoth}
+	readys := []string{"T", "F", "U", "N"}
+	ephs := [][]Taint{{}, {notReadyNX}, {{notReadyNX[0], notReadyNX[1], "", "3"}}, {cloud}}
+	// the NodeClaim's startup taint as the node carries it: not at all, as in the spec, with another value and a stamp
+	starts := [][]Taint{{}, {tStartA}, {{tStartA[0], tStartA[1], "pending", "1"}}}
+	type flags struct{ res, reg, dns bool }
+	fl := []flags{{true, false, false}}
+	claims := []ClaimIn{{Startup: []Taint{tStartA}, Taints: []Taint{tClaim}, Res: 1, Pool: true}}
+	if t == core.Thorough {
+		fl = []flags{{true, false, false}, {false, false, false}, {true, true, false}, {true, false, true}, {false, true, true}}
+		claims = append(claims,
+			ClaimIn{Startup: []Taint{{tStartA[0], tStartA[1], "boot"}}, Taints: []Taint{{tClaim[0], tClaim[1], "gpu"}}, Res: 0, Pool: false},
+			ClaimIn{Startup: []Taint{}, Taints: []Taint{}, Res: 2, Pool: true, Fin: true})
+	}
+	var out []any
+	for _, c := range claims {
+		for _, u := range unregs {
+			for _, rs := range readys {
+				for _, eph := range ephs {
+					for _, st := range starts {
+						for _, f := range fl {
+							node := Step{K: "node", Taints: []Taint{}, Rs: rs, Res: f.res, Reg: f.reg, Dns: f.dns}
+							node.Taints = append(node.Taints, eph...)
+							if u != nil {
+								node.Taints = append(node.Taints, *u)
+							}
+							node.Taints = append(node.Taints, st...)
+							steps := []Step{{K: "rec"}, node, {K: "rec"}, {K: "rec"}}
+							// clear the blockers: Ready last but one, so that every other gate is open while Ready is still U / N / F
+							for _, e := range eph {
+								e := e
+								steps = append(steps, Step{K: "rmt", T: &e}, Step{K: "rec"})
+							}
+							steps = append(steps, Step{K: "rmt", T: &tStartA}, Step{K: "rec"})
+							if !f.res {
+								steps = append(steps, Step{K: "res"}, Step{K: "rec"})
+							}
+							if rs != "T" {
+								steps = append(steps, Step{K: "ready"}, Step{K: "rec"})
+							}
+							steps = append(steps, Step{K: "rec"})
+							out = append(out, In{Claim: c, Steps: steps})
+						}
+					}
 				}
 			}
 		}
@@ -630,7 +858,7 @@ type InitOut struct {
 
 var initUniverse = []Taint{tStartA, tStartB, tDecoy, tNearEph, tReadyCtl, tOther,
 	{corev1.TaintNodeNotReady, "NoSchedule"}, {corev1.TaintNodeNotReady, "NoExecute"}, {corev1.TaintNodeUnreachable, "NoSchedule"},
-	{"node.cloudprovider.kubernetes.io/uninitialized", "NoSchedule"}, tUnreg, {"readiness.k8s.io", "NoSchedule"}}
+	{"node.cloudprovider.kubernetes.io/uninitialized", "NoSchedule", "true"}, tUnreg, {"readiness.k8s.io", "NoSchedule"}}
 
 func resNameOf(i int) corev1.ResourceName {
 	return corev1.ResourceName(fmt.Sprintf("example.com/dev-%d", i))
@@ -650,13 +878,7 @@ func implInit(raw json.RawMessage) (any, error) {
 		}
 	}
 	n := &corev1.Node{}
-	n.Spec.Taints = toTaints(in.Node)
-	// the cloud-provider taint carries a value in the wild; MatchTaint must ignore it
-	for i := range n.Spec.Taints {
-		if n.Spec.Taints[i].Key == "node.cloudprovider.kubernetes.io/uninitialized" {
-			n.Spec.Taints[i].Value = "true"
-		}
-	}
+	n.Spec.Taints = toTaints(in.Node) // with the value / timeAdded the input gives them; MatchTaint must ignore both
 	if len(in.Alloc) > 0 {
 		n.Status.Allocatable = corev1.ResourceList{}
 		for _, q := range in.Alloc {
@@ -665,10 +887,12 @@ func implInit(raw json.RawMessage) (any, error) {
 	}
 	out := InitOut{}
 	if t, ok := lifecycle.StartupTaintsRemoved(n, nc); !ok {
-		out.Startup = &Taint{t.Key, string(t.Effect)}
+		tt := taintOf(*t)
+		out.Startup = &tt
 	}
 	if t, ok := lifecycle.KnownEphemeralTaintsRemoved(n); !ok {
-		out.Ephemeral = &Taint{t.Key, string(t.Effect)}
+		tt := taintOf(*t)
+		out.Ephemeral = &tt
 	}
 	_, out.Resources = lifecycle.RequestedResourcesRegistered(n, nc)
 	return out, nil
@@ -677,10 +901,10 @@ func implInit(raw json.RawMessage) (any, error) {
 func genInit(r *rand.Rand, _ core.Tier) any {
 	in := InitIn{Startup: []Taint{}, Node: []Taint{}, Reqs: [][2]int{}, Alloc: [][2]int{}}
 	for i, n := 0, r.IntN(4); i < n; i++ {
-		in.Startup = appendUniq(in.Startup, pick(r, initUniverse[:6]))
+		in.Startup = appendUniq(in.Startup, vary(r, pick(r, initUniverse[:6])))
 	}
 	for i, n := 0, r.IntN(6); i < n; i++ {
-		in.Node = appendUniq(in.Node, pick(r, initUniverse))
+		in.Node = appendUniq(in.Node, vary(r, pick(r, initUniverse)))
 	}
 	for i := 0; i < 3; i++ {
 		if r.IntN(2) == 0 {
@@ -707,24 +931,32 @@ func enumInit(_ core.Tier) []any {
 		}
 	}
 	uni := []Taint{tStartA, tStartB, tDecoy, tNearEph, tReadyCtl, {corev1.TaintNodeNotReady, "NoExecute"}, tUnreg}
-	for _, s := range startups {
-		for mask := 0; mask < 1<<len(uni); mask++ {
-			var nt []Taint
-			for i, t := range uni {
-				if mask&(1<<i) != 0 {
-					nt = append(nt, t)
-				}
+	// the same universe as a real Node carries it: values and timeAdded stamps on (identity is key + effect)
+	uniPayload := []Taint{{tStartA[0], tStartA[1], "pending"}, {tStartB[0], tStartB[1], "", "1"}, {tDecoy[0], tDecoy[1], "x", "2"}, tNearEph,
+		{tReadyCtl[0], tReadyCtl[1], "true"}, {corev1.TaintNodeNotReady, "NoExecute", "", "3"}, tUnregBoth}
+	for pass, uni := range [][]Taint{uni, uniPayload} {
+		for _, s := range startups {
+			if pass == 1 && len(s) == 2 {
+				continue
 			}
-			if nt == nil {
-				nt = []Taint{}
-			}
-			out = append(out, InitIn{Startup: s, Node: nt, Reqs: [][2]int{}, Alloc: [][2]int{}})
-			if len(nt) >= 2 { // reversed node order: which taint is reported first
-				rev := make([]Taint, len(nt))
-				for i := range nt {
-					rev[len(nt)-1-i] = nt[i]
+			for mask := 0; mask < 1<<len(uni); mask++ {
+				var nt []Taint
+				for i, t := range uni {
+					if mask&(1<<i) != 0 {
+						nt = append(nt, t)
+					}
 				}
-				out = append(out, InitIn{Startup: s, Node: rev, Reqs: [][2]int{}, Alloc: [][2]int{}})
+				if nt == nil {
+					nt = []Taint{}
+				}
+				out = append(out, InitIn{Startup: s, Node: nt, Reqs: [][2]int{}, Alloc: [][2]int{}})
+				if len(nt) >= 2 { // reversed node order: which taint is reported first
+					rev := make([]Taint, len(nt))
+					for i := range nt {
+						rev[len(nt)-1-i] = nt[i]
+					}
+					out = append(out, InitIn{Startup: s, Node: rev, Reqs: [][2]int{}, Alloc: [][2]int{}})
+				}
 			}
 		}
 	}
@@ -781,6 +1013,19 @@ func Ops() []*core.Op {
 			Impl:           impl,
 			Rule:           "non-trivial = provider Create is reached",
 			ExhaustiveNote: "every single-fault position x {7 call sites x their error classes, 4 provider Create outcomes} x node scripts",
+			Nontrivial:     reachedCreate,
+			Labels:         histLabels,
+			Signature:      histSignature,
+			Shrink:         histShrink,
+		},
+		{
+			Name:           "c14.gates",
+			Doc:            "the same controller, fault free, on every shape of a fresh Node: unregistered taint {absent, bare, with value, with timeAdded, both} x Ready condition {True, False, Unknown, not posted} x kubelet / cloud-provider taint {none, bare, stamped, with value} x the NodeClaim's startup taint on the node {absent, as in the spec, other value + stamp} (thorough: x resource reported / registered label / do-not-sync-taints x 3 NodeClaim specs); reconciled, then every remaining blocker cleared one event at a time (Ready last) with a reconcile after each",
+			N:              func(core.Tier) int { return 0 },
+			Enum:           enumGates,
+			Impl:           impl,
+			Rule:           "non-trivial = provider Create is reached",
+			ExhaustiveNote: "5 unregistered-taint forms x 4 Ready states x 4 ephemeral-taint forms x 3 startup-taint forms (x 5 flag sets x 3 claims in the thorough tier)",
 			Nontrivial:     reachedCreate,
 			Labels:         histLabels,
 			Signature:      histSignature,
